@@ -93,12 +93,21 @@ pub fn run(rep: &'static Report) {
     let ids = idents(seed);
     let e = derive32(seed, "c08-e");
     let e_pub = r::x25519_base(&e);
-    let plains: Vec<(Vec<u8>, Vec<Vec<usize>>)> = vec![
+    let mut plains: Vec<(Vec<u8>, Vec<Vec<usize>>)> = vec![
         (vec![], vec![vec![]]),
         (plaintext(seed ^ 0x81, 100), vec![vec![], vec![1], vec![50, 49], vec![99, 1]]),
         (plaintext(seed ^ 0x82, CS + 5), vec![vec![], vec![1], vec![CS, 1], vec![CS - 1, 1, 5]]),
         (plaintext(seed ^ 0x85, CS + 150), vec![vec![100, CS, 50], vec![4096, CS]]),
     ];
+    if rep.tier == crate::report::Tier::Thorough {
+        // every length 1..=6 under EVERY read partition (all compositions), and lengths around 1, 2 and 3 chunk boundaries
+        for l in 1..=6usize {
+            plains.push((plaintext(seed ^ 0x8800 ^ l as u64, l), compositions(l, l)));
+        }
+        for l in [CS - 1, CS, CS + 1, 2 * CS - 1, 2 * CS, 2 * CS + 1, 3 * CS, 3 * CS + 7] {
+            plains.push((plaintext(seed ^ 0x8900 ^ l as u64, l), vec![vec![], vec![1], vec![CS - 1, 2, CS], vec![l / 2, 1], vec![7; 40]]));
+        }
+    }
     let pays = [derive32(seed, "c08-pay-0"), derive32(seed, "c08-pay-1")];
     let mut jobs = vec![];
     for (pi, (_, parts)) in plains.iter().enumerate() {
@@ -210,6 +219,39 @@ pub fn run(rep: &'static Report) {
         }
     }
 
+    // "a fresh ephemeral public key": a run of 48 encryptions on one thread with the ephemeral key left to the library
+    // (payload key supplied for the first 24, left to the library for the rest): the 32-byte field after the magic never
+    // repeats and is never a party's public key
+    {
+        let p = plaintext(seed ^ 0x87, 20);
+        let mut seen: Vec<(usize, Vec<u8>)> = vec![];
+        for i in 0..48usize {
+            rep.eval(1);
+            let (si, ri) = (i % 4, (i / 4) % 4);
+            let pay = if i < 24 { Some(&pays[0]) } else { None };
+            match key_enc_opts(&ids[si], &ids[ri], None, None, pay, &p, &[]) {
+                Err(m) => {
+                    rep.violation("sequence/encrypt-failed", json!({"kind":"sequence","i":i}), m);
+                    break;
+                }
+                Ok(file) => {
+                    let e = file[4..36].to_vec();
+                    if let Some((j, _)) = seen.iter().find(|(_, x)| *x == e) {
+                        rep.violation("sequence/ephemeral-field-repeats", json!({"kind":"sequence","i":i,"j":j}), format!("file {} of a run of encryptions in one thread carries the same ephemeral public key as file {}", i, j));
+                        break;
+                    }
+                    if let Some(who) = ids.iter().find(|x| x.pk[..] == e[..]) {
+                        rep.violation("sequence/ephemeral-field-is-a-party-key", json!({"kind":"sequence","i":i}), format!("file {} carries {}'s public key in its ephemeral field", i, who.name));
+                        break;
+                    }
+                    seen.push((i, e));
+                }
+            }
+        }
+        rep.nontrivial(b"ephemeral-sequence");
+        rep.extra("ephemeral_sequence_length", json!(48));
+    }
+
     // password mode
     let salt = derive32(seed, "c08-salt");
     let mut headers = vec![];
@@ -262,7 +304,7 @@ fn cli_level(rep: &Report) {
     let mut jobs = vec![];
     for s in 0..3 {
         for rc in 0..3 {
-            for n in [0usize, 10, 70000] {
+            for n in rep.tier.pick(vec![0usize, 10, 70000], vec![0usize, 1, 10, CS - 1, CS, CS + 1, 70000, 2 * CS, 2 * CS + 1]) {
                 for wiring in 0..4u8 {
                     jobs.push((s, rc, n, wiring));
                 }
@@ -404,6 +446,54 @@ fn cli_level(rep: &Report) {
             })
             .sum();
         rep.extra("cli_stdin_plaintext_runs", json!({"runs":sjobs.len(),"files_produced":produced}));
+    }
+    // stdout is a NON-BLOCKING pipe read slowly (as left behind by ssh or a task runner): the run may fail with an
+    // error, but an exit status of 0 promises a conforming file of exactly the prescribed length on the pipe
+    {
+        let mut njobs = vec![];
+        for mode in ["key", "pass"] {
+            for n in [10usize, 70000, 300_000] {
+                for slow in [(0u64, 4096usize, 300u64), (150, 65536, 0), (0, 1000, 50)] {
+                    njobs.push((mode, n, slow));
+                }
+            }
+        }
+        let ok_runs: usize = njobs
+            .par_iter()
+            .map(|&(mode, n, slow)| {
+                rep.eval(1);
+                let p = plaintext(seed ^ 0x86, n);
+                let sc = Scratch::new();
+                sc.write("kr.txt", kr.as_bytes());
+                sc.write("plain.bin", &p);
+                let pw = if mode == "key" { parties[0].password.clone() } else { "pw-for-file".to_string() };
+                let args: Vec<&str> = if mode == "key" { vec!["encrypt", "plain.bin", "-t", &parties[1].name, "-f", &parties[0].name, "-k", "kr.txt", "--env-pass"] } else { vec!["password", "encrypt", "plain.bin", "--env-pass"] };
+                let mut cmd = Cmd::new(&args).env("KESTREL_PASSWORD", &pw);
+                cmd.stdout_nonblock_slow = Some(slow);
+                let out = proc::run(&cmd, &sc.0);
+                let case = json!({"kind":"cli-nonblock","mode":mode,"n":n,"reader":[slow.0, slow.1, slow.2]});
+                rep.nontrivial(format!("nonblock-{}-{}-{:?}", mode, n, slow).as_bytes());
+                if let Err(e) = out.well_behaved() {
+                    rep.violation("cli-nonblock/ill-behaved", case, format!("kestrel {} into a non-blocking stdout pipe: {}", args.join(" "), e));
+                    return 0;
+                }
+                if !out.ok() {
+                    return 0;
+                }
+                let file = &out.stdout;
+                let (hdr, good) = if mode == "key" {
+                    (132, matches!(r::read_key_file(&parties[1].sk, file), Ok(k) if k.parsed.plaintext == p))
+                } else {
+                    (36, file.len() >= 36 && matches!(r::read_pass_file_with_key(&r::pass_key(pw.as_bytes(), file[4..36].try_into().unwrap()), file), Ok(k) if k.plaintext == p))
+                };
+                let want = hdr + 32 * ((n + CS - 1) / CS).max(1) + n;
+                if !good || file.len() != want {
+                    rep.violation("cli-nonblock/exit-0-but-not-the-prescribed-file", case, format!("kestrel {} into a non-blocking stdout pipe with a slow reader: exit 0, {} bytes arrived, the prescribed file has {} bytes{}", args.join(" "), file.len(), want, if good { "" } else { " (REF cannot read what arrived)" }));
+                }
+                1
+            })
+            .sum();
+        rep.extra("cli_nonblocking_stdout_runs", json!({"runs":njobs.len(),"exit_0":ok_runs}));
     }
     rep.extra("cli_encryptions", json!(jobs.len()));
     rep.sample(json!({"kind":"cli","from":"alice-keyring-name","to":"alice-keyring-name","n":10,"via":"stdout","expect":"stdout is exactly a 174-byte conforming file containing neither name nor any party's key"}));
